@@ -81,6 +81,56 @@ class Keywordize(ast.NodeTransformer):
         return node
 
 
+class Hoist(ast.NodeTransformer):
+    """y = f(g(a), h(b))  ->  t1 = g(a); t2 = h(b); y = f(t1, t2)   (left-to-right evaluation order is preserved)"""
+
+    def __init__(self):
+        self.n = 0
+
+    def _hoist_stmt(self, stmt):
+        val = getattr(stmt, "value", None)
+        if not isinstance(stmt, (ast.Assign, ast.Return, ast.Expr)) or not isinstance(val, ast.Call):
+            return [stmt]
+        if any(isinstance(x, (ast.Yield, ast.YieldFrom, ast.Await)) for x in ast.walk(val)):
+            return [stmt]
+        if not isinstance(val.func, (ast.Name, ast.Attribute)) or any(isinstance(x, ast.Call) for x in ast.walk(val.func)):
+            return [stmt]
+        pre = []
+        new_args = []
+        for a in val.args:
+            if isinstance(a, ast.Call) and not any(isinstance(x, (ast.Lambda, ast.ListComp, ast.GeneratorExp, ast.DictComp, ast.SetComp, ast.Starred)) for x in ast.walk(a)):
+                self.n += 1
+                nm = "hoisted_%d" % self.n
+                pre.append(ast.Assign(targets=[ast.Name(id=nm, ctx=ast.Store())], value=a))
+                new_args.append(ast.Name(id=nm, ctx=ast.Load()))
+            else:
+                # an argument we keep in place: later hoists would move calls across it; stop to preserve evaluation order
+                new_args.append(a)
+                if any(isinstance(x, ast.Call) for x in ast.walk(a)):
+                    new_args.extend(val.args[len(new_args):])
+                    break
+        val.args = new_args
+        return pre + [stmt]
+
+    def _body(self, body):
+        out = []
+        for st in body:
+            st = self.visit(st)
+            out.extend(self._hoist_stmt(st))
+        return out
+
+    def generic_visit(self, node):
+        for field in ("body", "orelse", "finalbody"):
+            b = getattr(node, field, None)
+            if isinstance(b, list) and b and isinstance(b[0], ast.stmt) and not isinstance(node, (ast.Module, ast.ClassDef)):
+                setattr(node, field, self._body(b))
+            elif isinstance(b, list):
+                setattr(node, field, [self.visit(x) if isinstance(x, ast.AST) else x for x in b])
+        for h in getattr(node, "handlers", []) or []:
+            h.body = self._body(h.body)
+        return node
+
+
 def transformed(kind):
     root = pathlib.Path("/repo/verde")
     overlay = {}
@@ -96,6 +146,8 @@ def transformed(kind):
             tree = ast.fix_missing_locations(Renamer().visit(tree))
         if kind == "commute":
             tree = ast.fix_missing_locations(Commute().visit(tree))
+        if kind == "hoist":
+            tree = ast.fix_missing_locations(Hoist().visit(tree))
         if kind == "keywordize":
             parts = list(rel.with_suffix("").parts)
             if parts[-1] == "__init__":
@@ -107,7 +159,7 @@ def transformed(kind):
 
 def main():
     bad = 0
-    for kind in ("format", "rename", "commute", "keywordize"):
+    for kind in ("format", "rename", "commute", "keywordize", "hoist"):
         overlay = transformed(kind)
         for src in overlay.values():
             compile(src, "<variant>", "exec")
